@@ -363,6 +363,21 @@ class AEnv:
                 if all(s is not None for s in sizes):
                     return AT([axis(s) for s in sizes], ONE)
             raise _Unknown("shape of normal draw")
+        if op == "random.rademacher":
+            shp = v.kwargs.get("shape", a[1] if len(a) > 1 else None)
+            if isinstance(shp, (tuple, list)):
+                sizes = [self.dim_of(s) for s in shp]
+                if all(s is not None for s in sizes):
+                    return AT([axis(s) for s in sizes], ONE)
+            raise _Unknown("shape of rademacher draw")
+        if op == "shape_struct":
+            return self.need(a[0])
+        if op == "linalg.trace":
+            t = self.need(a[0])
+            i, j = v.kwargs.get("axis1", 0) % t.rank, v.kwargs.get("axis2", 1) % t.rank
+            if not t.zero:
+                self._contract(v, t.axes[i], t.axes[j])
+            return AT([ax for k_, ax in enumerate(t.axes) if k_ not in (i, j)], t.scalar, t.zero)
         if op == "np.repeat":
             t = self.need(a[0])
             k = self.dim_of(a[1])
@@ -777,3 +792,84 @@ def install_vmap(it, env: AEnv):
         return map_leaves(res, wrap)
 
     it.hooks["vmap.apply"] = hook
+
+
+# ------------------------------------------------------------------ AD transformations (typed)
+def install_ad(it, env: AEnv):
+    """Typed semantics of jacfwd/jacrev application, func.linearize and func.vjp.
+
+    J = d f(x)/dx has the axes of f(x) followed by the axes of x (units: out * in^-1);
+    linearize gives (f(x), v |-> J v); vjp gives (f(x), w |-> (J^T w,)).
+    """
+    from .interp import _MISSING, HarnessFn, WrappedFn
+
+    def jac_hook(itp, w, args, kwargs, site):
+        return _MISSING
+
+    orig_call_wrapped = it.call_wrapped
+
+    def call_wrapped(w, args, kwargs, site):
+        if w.kind == "jac" and len(args) == 1 and isinstance(args[0], T.Term):
+            x = args[0]
+            o = T.mk("jac_apply", (w, x), origin=site)
+            tx = env.of(x)
+            if tx is not None:
+                try:
+                    fx = itp_call(w.fn, [x], site)
+                    tf = env.of(fx)
+                    if tf is not None:
+                        env.declare(o, AT((*tf.axes, *[ax.relabel(m_inv) for ax in tx.axes]), m_mul(tf.scalar, m_inv(tx.scalar))))
+                except Exception:
+                    pass
+            return o
+        return orig_call_wrapped(w, args, kwargs, site)
+
+    def itp_call(f, args, site):
+        return it.call(f, args, {}, site)
+
+    it.call_wrapped = call_wrapped
+
+    def linearize(itp, args, kwargs, site):
+        f, x = args[0], args[1]
+        fx = itp.call(f, [x], {}, site)
+        tf, tx = env.of(fx), env.of(x) if isinstance(x, T.Term) else None
+        base = T.mk("func.linearize", (f, x), origin=site)
+        out0 = T.mk("getitem", (base, 0))
+        if tf is not None:
+            env.declare(out0, tf)
+
+        def jvp(itp2, a, kw, site2):
+            v = a[0]
+            o = T.mk("jvp_apply", (base, v), origin=site2)
+            tv = env.of(v)
+            if tf is not None and tv is not None and tx is not None:
+                if tv.rank != tx.rank or any(not same_size(p.size, q.size) for p, q in zip(tv.axes, tx.axes)):
+                    env.err("JVP applied to a tangent whose shape differs from the primal's", o, f"{tv} vs {tx}")
+                env.declare(o, tf)
+            return o
+
+        return out0, HarnessFn("jvp", jvp)
+
+    def vjp(itp, args, kwargs, site):
+        f, x = args[0], args[1]
+        fx = itp.call(f, [x], {}, site)
+        tf, tx = env.of(fx), env.of(x) if isinstance(x, T.Term) else None
+        base = T.mk("func.vjp", (f, x), origin=site)
+        out0 = T.mk("getitem", (base, 0))
+        if tf is not None:
+            env.declare(out0, tf)
+
+        def pull(itp2, a, kw, site2):
+            w_ = a[0]
+            o = T.mk("vjp_apply", (base, w_), origin=site2)
+            tw = env.of(w_)
+            if tf is not None and tw is not None and tx is not None:
+                if tw.rank != tf.rank or any(not same_size(p.size, q.size) for p, q in zip(tw.axes, tf.axes)):
+                    env.err("VJP applied to a cotangent whose shape differs from the output's", o, f"{tw} vs {tf}")
+                env.declare(o, tx)
+            return (o,)
+
+        return out0, HarnessFn("vjp", pull)
+
+    it.hooks["func.linearize"] = linearize
+    it.hooks["func.vjp"] = vjp
